@@ -51,3 +51,8 @@ Definition f5_history : list hstep :=
   [ clean (OpInstall fl0 1 1 [cmr "a" "v1"] [f5_hook]);
     clean (OpUpgrade fl0 2 2 [cmr "a" "v2"] [f5_hook]);
     faulted (OpRollback fl0) (mkCF None (Some ("h1", 0)) false) ].
+
+(* K9: the recovery of a failed atomic install is aborted by its own hook *)
+Definition k9_hook : hook := mkHook (mkRes "ConfigMap" "hx" [("d:h", "1")]) [PreInstall; PreDelete] 0 [HookFailed].
+Definition k9_history : list hstep :=
+  [ faulted (OpInstall fl_atomic 1 1 [cmr "a" "v1"] [k9_hook]) (mkCF (Some (VCreate, "ConfigMap/a")) None false) ].
